@@ -65,6 +65,15 @@ def runOpConvert (op : String) (args : List String) : String :=
       | some r => encReport r
       | none => "OUTSIDE"
     | _, _, _ => bad
+  | "split_cmd", [srcfmt, words, destfmt, dwords, enc, names, pwords, spec, src] =>
+    -- `transform ... --split spec` from the words of the command line (TT.runSplitCmd): the text of every part
+    match decSource srcfmt src, destFmt? destfmt, decWords words, decWords dwords, decWords names, decWords pwords, decS spec with
+    | some s, some f, some ws, some dws, some ns, some pws, some sp =>
+      match TT.runSplitCmd ns pws f dws (if enc == "n" then none else decS enc) sp ws s with
+      | some (.ok parts) => if parts.isEmpty then "EMPTY" else "|".intercalate (parts.map encS)
+      | some (.error e) => encErr e
+      | none => "OUTSIDE"
+    | _, _, _, _, _, _, _ => bad
   | "convert_cmd", [srcfmt, words, destfmt, dwords, enc, names, pwords, src] =>
     -- the whole `transform` command from the words of its command line: `--trans names --params pwords` (TT.runCmd:
     -- stepOf under ONE dict for all names), `--src-opts`, `--dest-opts`
